@@ -7,7 +7,8 @@ package auth
 // the build tag "verif". Syntax: /verif/DESIGN.md section 2.
 //
 //@ func (*Auth).LoginPost
-//@   property C01 C02 C03 C04 C16 C18
+//@   property C01 C02 C03 C04 C16 C18 C17
+//@   ensures[C17] no_secret_leak: secrets_clean
 //@
 //@   -- C01: a session is written only after the hasher accepted the submitted
 //@   -- password against the password of the user that was loaded under that pid
